@@ -217,6 +217,9 @@ def SugTarget (s : SugO) : Call → Prop
   | .sugCreate _ => False
   | .sugUpdateReq _ _ _ => False
   | .trialCreate _ => False
+  | .trialStatus _ _ _ => False
+  | .trialDelete _ => False
+  | .trialUpdateFin _ _ _ => False
   | _ => True
 
 theorem target_sugFinish (s : SugO) (st : SugSt) : (sugFinish s st).All (SugTarget s) := by
@@ -319,6 +322,9 @@ theorem sugPlan_vjust {k : Key2} {m : Int} (v hS : World) (k' : Key2) (env : Sug
     | sugCreate _ => exact absurd ht id
     | sugUpdateReq _ _ _ => exact absurd ht id
     | trialCreate _ => exact absurd ht id
+    | trialStatus _ _ _ => exact absurd ht id
+    | trialDelete _ => exact absurd ht id
+    | trialUpdateFin _ _ _ => exact absurd ht id
     | _ => trivial
 
 /-! ### the trial plan -/
